@@ -55,7 +55,7 @@ int run_ddl(const Args& a) {
             case 2: name = std::string(8, 'N') + "sub" + std::to_string(rc % 5); ncls = "layered"; break;
             default: name = std::string(300, static_cast<char>('a' + rc % 3)); ncls = "long"; break;
         }
-        ctl::Profile prof = make_profile(r, delays ? static_cast<int>(r.below(6)) : 0);
+        ctl::Profile prof = make_profile(r, delays ? static_cast<int>(r.below(7)) : 0);
         ctl::g_profile.store(delays ? &prof : nullptr);
         unsigned kind = static_cast<unsigned>(r.below(5)); // 0,1: create race then delete race; 2: delete race on existing; 3,4: mixed
         if (a.str("kinds", "all") == "pure") { kind = kind % 3; }
